@@ -164,4 +164,11 @@ def tryParseExt (c : Cursor) (payloadLength : Nat) (cur : ExtS) : Out (ExtS × C
       if s.exts.isEmpty then pure (cur, c) else pure (s, c.setSize (c.size - extSize))
     else pure (cur, c)
 
+/-- the end of the parsing constructors: `if (stream) inner_pdu(new RawPDU(stream.pointer(), stream.size()));` -/
+def finishRaw {α} (site : String) (p : α) (c : Cursor) : Out (α × Inner) :=
+  if c.toBool then do
+    let rest ← Cursor.rest site c
+    pure (p, .raw rest)
+  else pure (p, .none)
+
 end Tins.Wire.Icmp
